@@ -221,6 +221,53 @@ function bindingPositions() {
   ]
 }
 
+/** one field used at a position the binding map can serve AND at one it cannot (C07) */
+function placementCases() {
+  const out = []
+  const forms = [
+    ['plain', (n) => n],
+    ['after-hole', (n) => M.idx(M.arr([{ hole: true }, n]), M.lit('1'))],
+    ['object-member', (n) => M.mem(M.obj([{ key: 'k', value: n }]), 'k')],
+    ['or', (n) => M.bin('||', n, id('y'))],
+    ['cond', (n) => M.cond(id('c'), n, id('y'))],
+  ]
+  const mappable = [
+    ['text', (e) => text(E(e))],
+    ['mixed-text', (e) => text('a', E(e), 'b')],
+    ['attr', (e) => el('v', [A.plain('p', E(e))])],
+    ['class', (e) => el('v', [A.cls(['c ', E(e)])])],
+    ['id', (e) => el('v', [A.id(E(e))])],
+    ['dataset', (e) => el('v', [A.dataHyphen('k', E(e))])],
+    ['mark', (e) => el('v', [A.mark('k', E(e))])],
+    ['event', (e) => el('v', [A.event('bind', 'tap', E(e))])],
+    ['slot-attr', (e) => el('v', [A.slot(E(e))])],
+    ['style', (e) => el('v', [A.style(E(e))])],
+  ]
+  const unreachable = [
+    ['if-condition', (e) => [el('w', [], [text('T')], { wxIf: E(e) }), el('w', [], [text('F')], { wxElse: true })]],
+    ['elif-condition', (e) => [el('w', [], [text('T')], { wxIf: E(id('d')) }), el('w', [], [text('E')], { wxElif: E(e) })]],
+    ['for-list', (e) => [el('w', [], [text(E(id('item')))], { wxFor: { list: E(M.arr([e])) } })]],
+    ['inside-if', (e) => [block([el('w', [A.plain('q', E(e))])], { wxIf: E(id('d2')) })]],
+    ['inside-else', (e) => [block([text('x')], { wxIf: E(id('d')) }), block([text(E(e))], { wxElse: true })]],
+    ['inside-for', (e) => [block([el('w', [A.plain('q', E(e))])], { wxFor: { list: E(id('list')) } })]],
+    ['template-data', (e) => [tdef('t', [text(E(id('v')))]), tis('t', M.obj([{ key: 'v', value: e }]))]],
+    ['template-target', (e) => [tdef('X', [text('TX')]), tdef('X2', [text('TX2')]), tis(E(e))]],
+    ['template-body', (e) => [tdef('t', [text(E(e))]), tis('t', M.obj([{ short: 'x' }, { short: 'y' }, { short: 'c' }]))]],
+    ['slot-name', (e) => [slot(E(e))]],
+    ['block-slot-attr', (e) => [el('c', [], [block([text('t')], { slot: E(e) })])]],
+    ['include-body', (e) => [include('o')]],
+  ]
+  for (const [fn, f] of forms) for (const [mn, m] of mappable) for (const [un, u] of unreachable) for (const order of [0, 1]) {
+    const e = f(id('x'))
+    const a = [m(e)]
+    const b = u(fn === 'plain' ? id('x') : e)
+    const main = order === 0 ? [...a, ...b] : [...b, ...a]
+    const files = un === 'include-body' ? { 'd/o': [text('I', E(e))] } : {}
+    out.push({ name: `placement:${fn}:${mn}+${un}:${order === 0 ? 'mappable-first' : 'unreachable-first'}`, main, files, scripts: {} })
+  }
+  return out
+}
+
 // ---------------------------------------------------------------------------------------------
 // data environments
 
@@ -229,6 +276,7 @@ const VALUES = {
   y: [undefined, 'Y', 0, null],
   c: [undefined, 0, 1, '', 'a', null],
   d: [0, 1],
+  d2: [1, 0],
   list: [undefined, [], [1, 2], ['', 0], { k: 1, m: 2 }, 'ab', 2, null, [{ id: 1, v: 'p' }, { id: 2, v: 'q' }], [[1, 2], 'xy']],
   a: [undefined, { b: 'B' }, null],
   n: ['t', 'u', undefined, '', 'b'],
@@ -307,6 +355,7 @@ function corpus(deep) {
   for (const [n2, f2] of [...leaves, ...els.slice(0, 12)]) push(`if > ${n2}`, [block([f2()], { wxIf: C0 }), block([text('else')], { wxElse: true })])
   for (const [n2, f2] of els) push(`for > ${n2}`, [block([f2()], { wxFor: { list: LIST } })])
   for (const [pn, pf] of bindingPositions()) for (const [en, e] of exprForms()) push(`expr:${en}@${pn}`, pf(e))
+  for (const c of placementCases()) out.push(c)
   if (deep) {
     for (const [c1, f1] of ctrls) for (const [c2, f2] of ctrls) {
       if (c2.startsWith('wxs') || c2.startsWith('template:def') || c1.startsWith('wxs')) continue
@@ -321,4 +370,4 @@ function corpus(deep) {
   return out
 }
 
-module.exports = { exprForms, bindingPositions, leafKinds, elementKinds, wrappable, controlKinds, multiFileKinds, corpus, environments, collectNames, VALUES }
+module.exports = { placementCases, exprForms, bindingPositions, leafKinds, elementKinds, wrappable, controlKinds, multiFileKinds, corpus, environments, collectNames, VALUES }
